@@ -204,6 +204,18 @@ CHECKS["C11"] = {
     ],
 }
 
+CHECKS["C12"] = {
+    "engine": "simnet",
+    "level": "exploration",
+    "technique": "stateful property-based testing (rapid) of routing-table admission/eviction over a simulated network under synctest; invariant over membership at quiescent points vs. the per-peer success/failure history of the simulation",
+    "level_text": "Generated histories of identify/protocol events, lookups with changing peer health, cancelled lookups, refreshes, clock advances and Close racing refreshes run against the real IpfsDHT; at every quiescent point the "
+                  "membership is compared with the per-peer history in the simulation log (proof of an answer for every member, no member whose latest interaction is a failure/protocol-gone), and every refresh channel must deliver exactly one value. Exploration.",
+    "level_note": "Quiescent points = 3 min of virtual time after each event plus synctest.Wait; retention of healthy peers is not asserted (bucket replacement is legitimate); failures inside the window of a cancelled lookup are not counted as failures.",
+    "parts": [
+        {"part": "routing-table", "pkg": ROOT, "test": "TestVerif_C12_RoutingTable", "quick": 1200, "thorough": 20000},
+    ],
+}
+
 MANIFEST_HEAD = {
     "version": 1,
     "setup_cmd": "bin/check --setup",
